@@ -135,8 +135,49 @@ def model_to_impl_view(model_items):
     return out
 
 
+def dispatch_part(viol):
+    """the generated parse_response hands an event stream to the consumer: for a status that declares
+    text/event-stream next to other media types (text/plain, json, csv), a response labelled text/event-stream
+    selects the EventStream variant — otherwise no event is ever yielded — and the other labels select the others"""
+    import c04
+    c04.load_http_consts()
+    d = vlib.scratch("C20d")
+    S = {"type": "string"}
+    shapes = [[("text/plain", S), ("text/event-stream", c04.REF_PET)], [("text/event-stream", c04.REF_PET), ("text/plain", S)],
+              [("application/json", c04.REF_ERR), ("text/event-stream", c04.REF_PET), ("text/csv", S)], [("text/event-stream", c04.REF_PET)],
+              [("text/html", S), ("text/event-stream", S)]]
+    n = 0
+    for k, shape in enumerate(shapes):
+        for key in ("200", "2XX", "default"):
+            spec = c04.make_spec([(key, shape)])
+            sp = os.path.join(d, f"s{k}_{key}.json")
+            json.dump(spec, open(sp, "w"))
+            out = os.path.join(d, f"o{k}_{key}")
+            rc, txt = vlib.oas(["generate", "client-mod", "-i", sp, "-o", out, "-q"])
+            rb = vlib.vtool_lines("parse-response", [os.path.join(out, "types.rs")])[0] if rc == 0 else {"error": txt[-200:]}
+            if rc != 0 or "error" in rb or not rb.get("parse_response") or "error" in rb["parse_response"][0]:
+                viol.append((f"dispatch {shape}", f"generated dispatch for {key}: {[c for c, _ in shape]}: generation / read-back failed: {json.dumps(rb)[:200]}"))
+                continue
+            pr = rb["parse_response"][0]
+            for ct in ("text/event-stream", "text/event-stream; charset=utf-8", "text/event-stream;charset=UTF-8"):
+                n += 1
+                got = c04.eval_readback_case(pr, 200, ct)
+                if not (got.get("payload") or "").startswith("stream:"):
+                    if key == "default" and len(shape) > 1:
+                        continue      # the fallback arm has no content dispatch (C04's recorded default-multi-media class)
+                    viol.append((f"dispatch {shape}", f"generated dispatch for {key}: {[c for c, _ in shape]}: a response labelled {ct!r} is handed over as {got.get('variant')} ({got.get('payload')}) instead of an event stream: no event is yielded"))
+            for ct, sc in shape:
+                if ct != "text/event-stream" and key != "default":
+                    n += 1
+                    got = c04.eval_readback_case(pr, 200, ct)
+                    if (got.get("payload") or "").startswith("stream:"):
+                        viol.append((f"dispatch {shape}", f"generated dispatch for {key}: {[c for c, _ in shape]}: a response labelled {ct!r} is treated as an event stream"))
+    return n
+
+
 def main(tier, seed, replay=None):
     res = Result("C20", tier, seed)
+    vlib.build_repo()
     coq_ok, out = vlib.standard_coq_obligations(res, TARGETS, THEOREMS, expect_closed=8)
     exe = vlib.ocaml_build("c20") if coq_ok else None
     if coq_ok:
@@ -197,6 +238,8 @@ def main(tier, seed, replay=None):
                 viol.append((i, f"items differ from the standard's reading: script {lines[i]} -> {iv}, expected {specv}"))
         if len(iv) >= 1:
             n_nontrivial.add(lines[i])
+    # the generated content-type dispatch in front of the stream
+    n_disp = dispatch_part(viol)
     # known findings: does the implementation still fail on the recorded witnesses?
     for kf in vlib.known_findings("C20"):
         w = {"bom-panic": [b"\xef\xbb\xbfdata: 1\n\n"], "trailing-cr": [b"data: 1\r\r"]}.get(kf["key"])
@@ -208,7 +251,7 @@ def main(tier, seed, replay=None):
     res.counts.update({
         "evaluations": len(scripts), "distinct_nontrivial": len(n_nontrivial),
         "traces_validated_against_impl": len(scripts) if model is not None else 0,
-        "disagreements": len(dis),
+        "disagreements": len(dis), "dispatch_evaluations": n_disp,
         "rule": f"poll scripts (chunks + Pending): all 2^(n-1) chunkings of {len(SHORT_STREAMS)} short streams cut to <= {11 if tier=='quick' else 14} bytes, random streams from the event grammar (valid/malformed JSON, empty data, comments, multi-line, LF/CRLF/CR, 2-4 byte scalars) with random cuts, empty chunks and Pending polls, long runs (31..200) of item-less events before and between real events, plus ill-formed byte streams; the probe's executor honours the waker contract (Pending without a wake-up is reported as STALLED); each run through oas3_gen_support::EventStream (in-memory reqwest::Response) and through the extracted Coq machine; non-trivial = yields at least one item",
     })
     for i in (0, len(scripts) // 2, len(scripts) - 1):
@@ -220,9 +263,12 @@ def main(tier, seed, replay=None):
     ]
     res.assumptions = ["theorems quantify over well-formed UTF-8 byte streams; ill-formed streams are characterised by the executable model and the correspondence only",
                        "poll-level machine (one event per poll, Pending) is tied to the chunk-level theorems by C20_pending_noop and by correspondence, not by a full simulation proof",
-                       "serde_json is not modelled: a decode function is applied per event"]
+                       "serde_json is not modelled: a decode function is applied per event", "the generated content-type dispatch in front of the stream is read back (vtool parse-response) and evaluated on content-type labels, not run"]
     for (i, d) in viol[:3]:
-        res.violation(d, {"script": [None if s is None else s.hex() for s in scripts[i][0]], "impl_items": impl[i]})
+        if isinstance(i, str):
+            res.violation(d, {"generated_dispatch": i})
+        else:
+            res.violation(d, {"script": [None if s is None else s.hex() for s in scripts[i][0]], "impl_items": impl[i]})
     broken = [o for o in res.obligations if not o[1]]
     if broken and not viol:
         res.violation("proof obligation or correspondence no longer checks: " + "; ".join(o[0] for o in broken),
